@@ -150,7 +150,7 @@ def add_random_gate(qc, rng, n, log, allow3=True, max_multi=None, counter=None):
 
 
 def run(ctx):
-    lw = setup(ctx)
+    lw = setup(ctx, warm=False)
     install(lw)
     from qiskit import QuantumCircuit
     _tier[0] = ctx.tier
